@@ -103,9 +103,20 @@ func expectedIndex(r *Runner, site string, occ int, loc ErrorLocation) (int, boo
 // c07: one fault (arbitrary errno) injected at an arbitrary launch step, or a failing sync
 // callback: the program never runs, the error names the failing step, the child is killed
 // and reaped and the sync channel is closed when Start returns.
-func c07(part int) {
+func c07(part int) { c07only(part, "") }
+
+// VerifC08_RefusedLimit: a limit the kernel refuses (prlimit64 failing with any errno, e.g.
+// EPERM for a hard limit above the inherited one) stops the launch and names the entry: the
+// program never runs with limits other than the configured ones.
+func VerifC08_RefusedLimit() { c07only(0, "prlimit64") }
+
+func c07only(part int, only string) {
 	l := newLaunchX(true, true, true)
 	k, r := l.k, l.r
+	k.FaultOnly = only
+	if only != "" {
+		sym.Assume(!r.StopBeforeSeccomp) // Start waits for the exec (the early-return configurations are C07's subject)
+	}
 	sym.Assume(r.Ptrace == (part&1 != 0))
 	sym.Assume((r.SyncFunc != nil) == (part&2 != 0))
 	// configurations: ptrace x seccomp x user namespace x late cgroup unshare x sync callback;
@@ -203,8 +214,18 @@ func c07(part int) {
 			// Start hands the stopped child over to the tracer and returns: later failures are
 			// not reported by it (known finding, see known_findings.json)
 			sym.Extra("class", "early-return-handover")
+			sym.Assert(ignorable, "a launch step failed but Start (which returns early for a tracer-driven child) reported success")
+		} else {
+			sym.Assert(ignorable, "a launch step failed but Start reported success")
 		}
-		sym.Assert(ignorable, "a launch step failed but Start reported success")
+	}
+	if injected && c.Execed {
+		// the program runs although a launch step failed: only steps whose result the launcher
+		// deliberately ignores may be skipped over
+		sym.Reach("ran-despite-fault")
+		sym.Extra("site", k.FaultAt)
+		ignorable := k.FaultAt == "close"
+		sym.Assert(ignorable, "the program was started although the launch step "+k.FaultAt+" had failed")
 	}
 	if !injected && !earlyReturn {
 		sym.Assert(c.Execed, "Start returned success before the program was exec'ed")
